@@ -299,11 +299,11 @@ class Check:
         for what, p in self.violations:
             print(f'VIOLATION property={self.pid} replay={p}')
             print(f'  {what}')
+        for r in self.inconclusive:
+            print(f'INCONCLUSIVE property={self.pid}: {r}')
         if self.violations:
             code = 1
         elif self.inconclusive:
-            for r in self.inconclusive:
-                print(f'INCONCLUSIVE property={self.pid}: {r}')
             code = 2
         else:
             code = 0
